@@ -33,6 +33,8 @@ type corpus struct {
 		Min, Max, P [2]float64
 	} `json:"box2"`
 	Union []unionCase `json:"union"`
+	// evaluations of one union overlapping in time (overlap.go)
+	Overlap []overlapInput `json:"overlap"`
 }
 
 type unionCase struct {
@@ -104,6 +106,60 @@ func genCoord(rng *Rng, lo, hi float64, class int, dy bool) float64 {
 		return hi + float64(rng.Range(1, 64))/8
 	}
 	return hi + rng.Uniform(1e-9, 3*w+1)
+}
+
+// thresholdCounts: operand counts of the strata with a fixed number of operands.
+var thresholdCounts = []int{1, 2, 63, 64, 65, 100, 300}
+
+// genUnion draws an operand layout with n circles/boxes (+ possibly an operand with an empty
+// solid) and a query point; k selects the layout / point / blend regime.
+func genUnion(rng *Rng, k, n int) (u unionCase, stratum string) {
+	spread := []float64{1, 4, 20, 100}[rng.Intn(4)]
+	for i := 0; i < n; i++ {
+		x, y := rng.Dyadic(spread, 4), rng.Dyadic(spread, 4)
+		if k%5 == 4 && i > 0 { // nested / equal boxes
+			x, y = u.P[0], u.P[1]
+			if len(u.Circles) > 0 {
+				x, y = u.Circles[0][0], u.Circles[0][1]
+			}
+		}
+		if rng.Bool() {
+			u.Circles = append(u.Circles, [3]float64{x, y, float64(rng.Range(1, 40)) / 8})
+		} else {
+			u.Boxes = append(u.Boxes, [4]float64{x, y, float64(rng.Range(1, 40)) / 8, float64(rng.Range(1, 40)) / 8})
+		}
+	}
+	if k%4 == 3 && n >= 3 {
+		u.Nested = 1 + k%8/4
+	}
+	if k%6 == 1 {
+		// an operand whose solid is empty (its box is not): pruning must not rely on material in the box
+		sz := float64(rng.Range(4, 24)) / 8
+		u.Empty = append(u.Empty, [4]float64{rng.Dyadic(spread, 4), rng.Dyadic(spread, 4), sz + float64(rng.Range(1, 16))/8, sz})
+	}
+	// query points: random, near an operand boundary, at a box corner, far away
+	switch k % 4 {
+	case 0:
+		u.P = [2]float64{rng.Uniform(-spread*1.5, spread*1.5), rng.Uniform(-spread*1.5, spread*1.5)}
+	case 1:
+		u.P = [2]float64{rng.Dyadic(spread*1.5, 3), rng.Dyadic(spread*1.5, 3)}
+	case 2:
+		u.P = [2]float64{rng.Uniform(-3, 3) * spread * 10, rng.Uniform(-3, 3) * spread * 10}
+	default:
+		if len(u.Circles) > 0 {
+			ci := u.Circles[rng.Intn(len(u.Circles))]
+			u.P = [2]float64{ci[0] + ci[2], ci[1] - ci[2]} // corner of the circle's box
+		} else {
+			bi := u.Boxes[rng.Intn(len(u.Boxes))]
+			u.P = [2]float64{bi[0] - bi[2]/2, bi[1] + bi[3]/2}
+		}
+	}
+	stratum = "plain"
+	if k%3 == 2 {
+		u.Blend = []float64{0.01, 0.1, 1, 10, 1000}[rng.Intn(5)]
+		stratum = "polymin"
+	}
+	return u, fmt.Sprintf("%s/spread%g", stratum, spread)
 }
 
 func check(c *Ctx, r *Report) error {
@@ -317,66 +373,38 @@ func check(c *Ctx, r *Report) error {
 	}
 	nu := TierN(c.Tier, 1500, 30000, 6000)
 	for k := 0; k < nu; k++ {
-		var u unionCase
-		n := rng.Range(2, 7)
-		spread := []float64{1, 4, 20, 100}[rng.Intn(4)]
-		for i := 0; i < n; i++ {
-			x, y := rng.Dyadic(spread, 4), rng.Dyadic(spread, 4)
-			if k%5 == 4 && i > 0 { // nested / equal boxes
-				x, y = u.P[0], u.P[1]
-				if len(u.Circles) > 0 {
-					x, y = u.Circles[0][0], u.Circles[0][1]
-				}
-			}
-			if rng.Bool() {
-				u.Circles = append(u.Circles, [3]float64{x, y, float64(rng.Range(1, 40)) / 8})
-			} else {
-				u.Boxes = append(u.Boxes, [4]float64{x, y, float64(rng.Range(1, 40)) / 8, float64(rng.Range(1, 40)) / 8})
-			}
-		}
-		if k%4 == 3 && n >= 3 {
-			u.Nested = 1 + k%8/4
-		}
-		if k%6 == 1 {
-			// an operand whose solid is empty (its box is not): pruning must not rely on material in the box
-			sz := float64(rng.Range(4, 24)) / 8
-			u.Empty = append(u.Empty, [4]float64{rng.Dyadic(spread, 4), rng.Dyadic(spread, 4), sz + float64(rng.Range(1, 16))/8, sz})
-		}
-		// query points: random, near an operand boundary, at a box corner, far away
-		switch k % 4 {
-		case 0:
-			u.P = [2]float64{rng.Uniform(-spread*1.5, spread*1.5), rng.Uniform(-spread*1.5, spread*1.5)}
-		case 1:
-			u.P = [2]float64{rng.Dyadic(spread*1.5, 3), rng.Dyadic(spread*1.5, 3)}
-		case 2:
-			u.P = [2]float64{rng.Uniform(-3, 3) * spread * 10, rng.Uniform(-3, 3) * spread * 10}
-		default:
-			if len(u.Circles) > 0 {
-				ci := u.Circles[rng.Intn(len(u.Circles))]
-				u.P = [2]float64{ci[0] + ci[2], ci[1] - ci[2]} // corner of the circle's box
-			} else {
-				bi := u.Boxes[rng.Intn(len(u.Boxes))]
-				u.P = [2]float64{bi[0] - bi[2]/2, bi[1] + bi[3]/2}
-			}
-		}
-		stratum := "plain"
-		if k%3 == 2 {
-			u.Blend = []float64{0.01, 0.1, 1, 10, 1000}[rng.Intn(5)]
-			stratum = "polymin"
-		}
-		union(fmt.Sprintf("%s/spread%g", stratum, spread), u)
+		u, stratum := genUnion(rng, k, rng.Range(2, 7))
+		union(stratum, u)
 	}
+	// operand counts around sizes an implementation may treat differently (fixed-size buffers,
+	// a different data structure for large unions): 63, 64, 65, 100, 300 operands
+	for _, n := range thresholdCounts {
+		if n < 8 {
+			continue // 2..7 are the random stratum above; 1 is not a union (Union2D returns the operand)
+		}
+		for k := 0; k < TierN(c.Tier, 6, 60, 20); k++ {
+			u, stratum := genUnion(rng, 12*k+n%12, n)
+			union(fmt.Sprintf("%s/n%d", stratum, n), u)
+		}
+	}
+	// exact seams: query points on the boundary of one operand (value exactly 0) inside the box of another (seam.go)
+	for _, sc := range seamUnions(NewRng(c.Seed^0x5ea3), TierN(c.Tier, 48, 800, 200), TierN(c.Tier, 8, 16, 12)) {
+		union(sc.stratum, sc.u)
+	}
+	// two evaluations of one union overlapping in time (re-entrant and gated operands)
+	overlapStrata(c, r, rng, cu, &id, cp.Overlap)
 
 	for _, cs := range []*Cases{c2, c3, co, cu} {
 		if err := cs.Write(c.Out); err != nil {
 			return err
 		}
 	}
-	r.Rule = "boxes x points covering all 5x5(x5) position classes per axis (below / on min / inside / on max / above; degenerate boxes included) in a dyadic-exact regime (results compared EXACTLY with the rational clamp specification) and a rounding regime (relative 1e-12); Interval.Overlap on every ordering of endpoints in {0,1,2,3}; unions of 2..7 translated circles/boxes (nested, overlapping, far apart) at random / dyadic / far / box-corner points with the plain minimum (pruned must equal exhaustive exactly) and PolyMin(k) for k in 0.01..1000 (same sign). non-trivial = every case (each has a distinct position class/operand layout); distinct by exact input bits."
+	r.Rule = "boxes x points covering all 5x5(x5) position classes per axis (below / on min / inside / on max / above; degenerate boxes included) in a dyadic-exact regime (results compared EXACTLY with the rational clamp specification) and a rounding regime (relative 1e-12); Interval.Overlap on every ordering of endpoints in {0,1,2,3}; unions of 2..7 translated circles/boxes (nested, overlapping, far apart) at random / dyadic / far / box-corner points with the plain minimum (pruned must equal exhaustive exactly) and PolyMin(k) for k in 0.01..1000 (same sign). the same generators with 63, 64, 65, 100 and 300 operands (sizes an implementation may treat differently). union/overlap strata: two or more evaluations of ONE union overlapping in time, made deterministic with operands defined in the harness (harness/concshapes/probe.go): re-entrant (every operand, while it is evaluated, calls Evaluate of the enclosing union at another point - far from everything / inside the scene / at an operand / the same point - to depth 2..3, then returns its own value) and gated (an evaluation is parked inside an operand while another goroutine evaluates the same union completely, or up to its own operand with the first one finishing first), for 1, 2, 63, 64, 65, 100, 300 and random 2..7 operands, plain minimum and PolyMin, nested inner unions included; every value, outer and nested, must equal EvaluateSlow of a second union built from the plain operands and the fold of the operand values (exactly / same sign with a blend), a subset also goes through the Gallina model. exact seams: overlapping layouts on a 1/8 grid queried on the boundary of one operand (value exactly 0) inside the box of another, incl. touching / nested / identical / concentric operands. non-trivial = every case (each has a distinct position class/operand layout/schedule); distinct by exact input bits."
 	r.Trusted = append(r.Trusted, "hand model coq/Geo/Box.v, coq/Sdf/Union2.v tied by differential execution at FOps (bit-exact expected, 1e-12 relative tolerated) and by the exact QOps clamp specification",
 		"Coq port of Go math.Min/Max/Abs (coq/Num/GoMath.v)")
 	r.Assumptions = append(r.Assumptions, "union theorem hypotheses (operand value >= distance to its box outside it, solid point inside the box, 1-Lipschitz) are C01/C03 facts about the operands; here operands are translated circles and boxes",
-		"float64 rounding is not covered by the real-number theorems; measured by the exact rational comparison on every run")
+		"float64 rounding is not covered by the real-number theorems; measured by the exact rational comparison on every run",
+		"overlapping evaluations: the schedules exercised are the ones in which one evaluation is suspended INSIDE an operand evaluation (re-entrant call or gate) - interleavings inside the union's own loops need real pre-emption and are left to C10 (race detector, effect summaries)")
 	_ = strings.Join
 	return nil
 }
